@@ -390,9 +390,10 @@ void TasmanianFourierTransform::fast_fourier_transform1D(std::vector<std::vector
     // The terms \exp(-2 \pi k / N) \exp(-2 \pi j / 3), and \exp(-4 \pi k / N) \exp(-4 \pi j / 3) are the twiddle factors
     // The procedure is recursive splitting the transform into small sets, all the way to size 3
     //
-    int num_outputs = (int) data[0].size(); // get the problem dimensions, num outputs and num entries for the 1D transform
     int num_entries = (int) indexes.size(); // the size of the 1D problem, i.e., N
-    if (num_entries == 1) return; // nothing to do for size 1
+    if (num_entries <= 1) return; // nothing to do for size 1
+    // read the number of outputs from an entry of this 1D transform: data[0] is overwritten concurrently by the thread that owns index 0
+    int num_outputs = (int) data[indexes[0]].size();
     // a copy of the data is needed to swap back and forth, thus we make two copies and swap between them
     std::vector<std::vector<std::complex<double>>> V(num_entries);
     auto v = V.begin();
